@@ -424,7 +424,7 @@ def corr(ctx, oracle_only=False, nsynth=None):
     # captured backend answers; the complete exit state incl. the recorded row must be the implementation's
     if not oracle_only:
         kwnfull.refine_scenarios(ctx, res, PROP, [('alzr-small-grid', ctx.n(250, 1200)), ('nicral', ctx.n(50, 300)),
-                                                  ('alzr-nodiff', ctx.n(120, 400))] + ([('almgsi-2phase-loaded', 200)] if ctx.thorough else []))
+                                                  ('alzr-nodiff', ctx.n(120, 400)), ('alzr-loaded@rk4', ctx.n(50, 170)), ('nicral@rk4', ctx.n(30, 200))] + ([('almgsi-2phase-loaded', 200)] if ctx.thorough else []))
     vlib.finish_guard(res)
     return res
 
